@@ -124,6 +124,7 @@ func (sc c16Scenario) body(c *explore.Ctx) {
 					case "tick":
 						vsched.Point(&vsched.Op{Kind: "clock.tick"})
 						vclock.Advance(time.Duration(atoi(arg)) * time.Second)
+						vsched.GlobalEvent("tick")
 					case "fclose":
 						f.Close()
 						factoryClosed = true
